@@ -260,3 +260,21 @@ CHECKS["C11"] = {
                   "points handed to the table constructor are observed; construction is repeated, reordered and run on 2..16 threads.",
     "level_note": "The space is finite; the thorough tier enumerates it completely for the stated bounds. Trusted: refbp derivation, sha3, dalek hash-to-group.",
 }
+
+CHECKS["C12"] = {
+    "title": "Proof validity does not depend on generator capacity",
+    "level": "exploration",
+    "technique": "runtime monitoring: prove with capacity c_p, verify with every c_v (all modes), every rotation of mixed-capacity batches; generator prefixes compared across capacities; static-scalar count observed at the MSM boundary over the free-module group",
+    "design_ref": "DESIGN.md section 4 C12",
+    "legs": [{"name": "fm", "shards": 16}, {"name": "ris", "shards": 16}],
+    "rule": "single cases: (bits, aggregation m, prover capacity c_p, verifier capacity c_v, mode) over all bit lengths, m in 1..32 and all ordered pairs of powers of two in [m, 32] (thorough 64); "
+            "batch cases: (mixture of (aggregation, capacity) members, rotation, mode) incl. mixtures where the largest bits*aggregation member has a smaller capacity than another member, ties, and a first member "
+            "that is not the largest; members are proved under a capacity different from the one they are verified under; distinct = distinct tuples",
+    "require": {"quick": {"cross_capacity_verifications": 2500, "generator_prefixes_compared": 800, "mixed_capacity_batches": 1500, "static_scalar_counts_checked": 1500},
+                "thorough": {"cross_capacity_verifications": 10000, "generator_prefixes_compared": 3000, "mixed_capacity_batches": 10000, "static_scalar_counts_checked": 8000}},
+    "assumptions": COMMON_ASSUMPTIONS + ["capacities are swept up to 32 (quick) / 64 (thorough); on Ristretto bits*capacity is bounded by 2048"],
+    "level_text": "Executes prove with one parameter object and verify with another of every other capacity >= m (all three modes, masks checked), alone and inside every rotation of batches whose "
+                  "members use different capacities; compares generator (party, index) across capacities; over the free-module group observes that the number of static scalars handed to the "
+                  "precomputed table equals the table size (the condition whose violation is a backend assertion failure on Ristretto).",
+    "level_note": "Held on the executed combinations. Trusted: harness bookkeeping.",
+}
